@@ -1,27 +1,63 @@
 #!/bin/bash
-# tools/run_demo.sh <mutdir> <i>  : replays demo<i>/README.md of a seeded change in a fresh scratch worktree of /repo
-# and reports whether the demonstration passes without the change and fails with it.
+# tools/run_demo.sh <mutdir> <i>  : replays the shell block(s) of demo<i>/README.md of a seeded change in a fresh
+# scratch worktree of /repo and reports whether the demonstration passes without the change and fails with it.
+# Every "go test" / "go run" / run.sh line is timed out at 600 s and its exit status recorded together with whether the
+# change was applied at that point.
 export GOFLAGS=-mod=mod GOPROXY=off GOSUMDB=off GOTOOLCHAIN=local
 M=$(readlink -f "$1"); I=$2
 W=/tmp/mutv/demo.$$; rm -rf $W
 git -C /repo worktree add -q --detach $W HEAD || exit 2
-cp -r $M/demo$I $W/ ; cp $M/MUTANT$I.diff $W/
+cp -r $M/demo$I $W/ ; cp $M/MUTANT$I.diff $W/ 2>/dev/null || cp $M/patch.diff $W/MUTANT$I.diff
+[ -d $W/demo$I ] || { mkdir -p $W/demo$I; cp -r $M/demo/. $W/demo$I/; }
 cd $W
-applied=0; okclean=""; failmut=""
-while IFS= read -r line; do
-  l=$(echo "$line" | sed -e 's/^[[:space:]>$`(]*//' -e 's/`$//' -e 's/)[[:space:]]*$//' -e 's/^ulimit[^;]*;[[:space:]]*//' -e 's/^timeout [0-9]* //')
-  case "$l" in
-    "git apply -R"*|"git apply --reverse"*|"git checkout"*|"git stash"*) git checkout -q -- . 2>/dev/null; applied=0 ;;
-    "git apply"*) (git apply MUTANT$I.diff 2>/dev/null || git apply -3 MUTANT$I.diff) && applied=1 || echo "  patch does not apply" ;;
-    "cp "*|"rm "*|"mkdir "*|"mv "*) eval "$l" 2>/dev/null ;;
-    *"go test"*|*"go run"*|*"run.sh"*)
-      cmd=$(echo "$l" | sed -e 's/[[:space:]]*2>&1.*$//' -e 's/[[:space:]]*|.*$//')
-      out=$(eval "timeout 600 $cmd" 2>&1); rc=$?
-      echo "  [applied=$applied] $cmd -> exit $rc"
-      if [ $applied -eq 0 ]; then [ $rc -eq 0 ] && okclean=${okclean}P || okclean=${okclean}F; else [ $rc -ne 0 ] && failmut=${failmut}F || failmut=${failmut}P; fi ;;
-  esac
-done < <(grep -E '^[[:space:]>$`(]*(cp |rm |mv |mkdir |git apply|git checkout|git stash|go test|go run|ulimit.*go |timeout.*go |\./demo[0-9]/run.sh)' demo$I/README.md | sed -E -e 's#/tmp/mut2?/C[0-9]+#'$W'#g')
-cd /; git -C /repo worktree remove --force $W
-echo "  clean-run results: ${okclean:-none}   mutated-run results: ${failmut:-none}"
-case "$okclean" in *F*|"") echo "DEMO NOT CONFIRMED (clean run)"; exit 1;; esac
-case "$failmut" in *F*) echo "DEMO CONFIRMED"; exit 0;; *) echo "DEMO NOT CONFIRMED (mutated run did not fail)"; exit 1;; esac
+python3 - "$W" "$I" > $W/.demo_script.sh <<'PY'
+import re,sys
+W,I=sys.argv[1],sys.argv[2]
+txt=open(f"{W}/demo{I}/README.md").read()
+blocks=re.findall(r"```(?:sh|bash|shell|console)?\n(.*?)```",txt,re.S)
+lines=[]
+for b in blocks:
+    cur=""
+    for l in b.split("\n"):
+        l=l.rstrip()
+        if l.endswith("\\"):
+            cur+=l[:-1]+" "; continue
+        lines.append(cur+l); cur=""
+def strip_comment(l):
+    q=None
+    for i,ch in enumerate(l):
+        if q:
+            if ch==q: q=None
+        elif ch in "\"'": q=ch
+        elif ch=="#" and (i==0 or l[i-1].isspace()): return l[:i]
+    return l
+print("applied=0")
+for l in lines:
+    l=re.sub(r"/tmp/mut2?/C[0-9]+",W,l)
+    l=re.sub(r"^\s*[$>]\s+","",l)
+    s=strip_comment(l).strip()
+    if not s or s.startswith("#"): continue
+    if re.match(r"git (apply (-R|--reverse)|checkout|stash|restore)",s):
+        print("git checkout -q -- . ; applied=0")
+    elif s.startswith("git apply"):
+        print(f"(git apply MUTANT{I}.diff 2>/dev/null || git apply -3 MUTANT{I}.diff) && applied=1")
+    elif re.search(r"\bgo (test|run|vet)\b|run\.sh",s):
+        s2=re.sub(r"timeout \d+ ","timeout 600 ",s)
+        print(f"( {s2} ) > .demo_out.txt 2>&1; rc=$?; echo \"RESULT applied=$applied rc=$rc :: {s[:100].replace(chr(34),'')}\"")
+    elif re.match(r"(cp|rm|mv|mkdir|export|cd|chmod|ulimit|git worktree|git status|git diff)\b",s):
+        if s.startswith("cd ") and not s.startswith("cd "+W): 
+            if s.startswith("cd /"): continue
+        if s.startswith("git worktree"): continue
+        print(s)
+PY
+out=$(bash $W/.demo_script.sh 2>&1 | grep "^RESULT")
+echo "$out" | sed 's/^/  /'
+okclean=$(echo "$out" | grep "applied=0" | sed -E 's/.*rc=([0-9]+).*/\1/' | tr '\n' ' ')
+failmut=$(echo "$out" | grep "applied=1" | sed -E 's/.*rc=([0-9]+).*/\1/' | tr '\n' ' ')
+[ -n "$KEEP_DEMO" ] && cp $W/.demo_script.sh /tmp/mutv/last_demo_script.sh; cd /; git -C /repo worktree remove --force $W
+echo "  clean-run exit codes: ${okclean:-none}   mutated-run exit codes: ${failmut:-none}"
+[ -n "$okclean" ] || { echo "DEMO NOT CONFIRMED (no clean run found)"; exit 1; }
+for c in $okclean; do [ "$c" = 0 ] || { echo "DEMO NOT CONFIRMED (clean run fails)"; exit 1; }; done
+[ -n "$failmut" ] || { echo "DEMO NOT CONFIRMED (no mutated run found)"; exit 1; }
+for c in $failmut; do [ "$c" != 0 ] && { echo "DEMO CONFIRMED"; exit 0; }; done
+echo "DEMO NOT CONFIRMED (mutated run did not fail)"; exit 1
